@@ -787,13 +787,13 @@ func runC15(r *rt.Runner) {
 		}
 		c15RawProto(c, src, []string{"sink.v1"}, "raw:sink", "raw-model")
 	})
-	for i := 0; i < r.Scale(300, 10000); i++ {
+	for i := 0; i < r.Scale(300, 40000); i++ {
 		r.Do(fmt.Sprintf("raw/annotated/%d", i), func(c *rt.C) {
 			files, pkgs := (&rawGen{rng: c.Rand()}).bundle()
 			c15RawProto(c, files, pkgs, fmt.Sprintf("raw:%d", i), "raw-annotated")
 		})
 	}
-	for i := 0; i < r.Scale(150, 5000); i++ {
+	for i := 0; i < r.Scale(150, 20000); i++ {
 		r.Do(fmt.Sprintf("raw/model/%d", i), func(c *rt.C) {
 			m := randomModel(c.Rand(), "rand.v1")
 			src := map[string]string{}
@@ -803,7 +803,7 @@ func runC15(r *rt.Runner) {
 			c15RawProto(c, src, []string{"rand.v1"}, fmt.Sprintf("model:%d", i), "raw-model")
 		})
 	}
-	for i := 0; i < r.Scale(200, 6000); i++ {
+	for i := 0; i < r.Scale(200, 24000); i++ {
 		r.Do(fmt.Sprintf("rules/%d", i), func(c *rt.C) {
 			g := &j5Gen{rng: c.Rand()}
 			var fields []*jF
@@ -818,7 +818,7 @@ func runC15(r *rt.Runner) {
 			c15Bundle(c, b, fmt.Sprintf("rules:%d", i), "j5s-rules")
 		})
 	}
-	for i := 0; i < r.Scale(250, 8000); i++ {
+	for i := 0; i < r.Scale(250, 32000); i++ {
 		r.Do(fmt.Sprintf("bundle/%d", i), func(c *rt.C) {
 			bundle := (&j5Gen{rng: c.Rand()}).randomBundle()
 			if i%2 == 0 {
